@@ -12,7 +12,7 @@ out_checks = []
 tsv = []
 for c in checks["checks"]:
     pid = c["property_id"]
-    tsv.append("\t".join([pid, c["pkg"], c["bin"], c.get("args", "")]))
+    tsv.append("\t".join([pid, c["pkg"], c["bin"], c.get("args", ""), ",".join(c.get("more", []))]))
     out_checks.append({
         "property_id": pid,
         "quick_cmd": f"./check {pid} --tier quick",
@@ -37,6 +37,13 @@ m = {
     ],
 }
 json.dump(m, open(f"{root}/MANIFEST.json", "w"), indent=1)
+# keep lines that builders appended for engines not yet integrated into checks.json
+try:
+    for l in open(f"{root}/checks.tsv").read().splitlines():
+        if l.strip() and l.split("\t")[0] not in claimed:
+            tsv.append(l)
+except FileNotFoundError:
+    pass
 open(f"{root}/checks.tsv", "w").write("\n".join(tsv) + ("\n" if tsv else ""))
 try:
     sys.path.insert(0, "/opt/veriftools/pyvenv/lib/python3.11/site-packages")
